@@ -154,7 +154,7 @@ def load_findings():
 # ---- replay files ---------------------------------------------------------------------------------------------
 
 def write_replay(pid, payload):
-    d = os.path.join(VERIF, 'replays', pid)
+    d = os.path.join(os.environ.get('VERIF_SCRATCH_OUT') or VERIF, 'replays', pid)   # VERIF_SCRATCH_OUT: runs against seeded changes
     os.makedirs(d, exist_ok=True)
     s = json.dumps(payload, sort_keys=True)
     name = hashlib.sha256(s.encode()).hexdigest()[:16]+'.json'
@@ -171,7 +171,7 @@ def write_replay(pid, payload):
 # ---- evidence -----------------------------------------------------------------------------------------------
 
 def write_evidence(ctx, level, coverage, assumptions, violations, extra=None):
-    d = os.path.join(VERIF, 'evidence')
+    d = os.path.join(os.environ.get('VERIF_SCRATCH_OUT') or VERIF, 'evidence')
     os.makedirs(d, exist_ok=True)
     ev = {'property_id': ctx.pid, 'tier': ctx.tier, 'seed': int(ctx.seed), 'level': level, 'coverage': coverage,
           'assumptions': assumptions, 'wall_s': round(time.time()-ctx.t0, 2), 'violations': int(violations)}
